@@ -23,6 +23,13 @@ def arbiter_job(n_quick=20000, n_thorough=600000):
             "why": "parent calls / verdicts of the real multiAckNacker or runAckNacker+splitRun differ from the pure arbiter functions "
                    "(Spec/Arbiter.lean) about which the C01/C04/C07/C08 arbiter theorems are proved and to which the engine model is tied by simulation lemmas"}
 
+def funnel_stop_job(tag, n_quick=1200, n_thorough=40000):
+    return {"harness": "h_funnel", "comp": "funnelstop", "driver": "funnelmon", "n_quick": n_quick, "n_thorough": n_thorough,
+            "fail_tag": tag,
+            "why": "a graceful Worker.Stop arriving at a random instant of a real funnel.Worker run leaves a record half-handled (written to a "
+                   "destination / the DLQ but not acknowledged before the source was torn down, or acknowledged after the teardown), or the stop "
+                   "does not complete (Lean monitor clauses C06 on the recorded trace)"}
+
 FUNNEL_RULE = ("funnel: task tree (0-3 processors, 1-3 destination branches, optional branch processor), DLQ window config, 1-3 source "
                "batches, and plugin replies generated reactively per call (pass/modify/filter/error/split/nil, fewer/more/none; "
                "destination acks partitioned into several responses with errors, wrong/extra/out-of-order/short/empty/error responses), "
